@@ -167,12 +167,13 @@ class XGen:
             else:
                 self.pkg.media["word/" + name] = data
                 if self.maybe(0.3):
-                    self.pkg.content_types["overrides"].append(("/word/" + name, "image/" + ("x-emf" if ext == "emf" else ext.lower())))
+                    self.pkg.content_types["overrides"].append(("/word/" + name, "image/" + {"emf": "x-emf", "jpg": "jpeg"}.get(ext.lower(), ext.lower())))
                 elif ext != ext.lower() and ext not in [d[0] for d in self.pkg.content_types["defaults"]] and self.maybe(0.5):
                     # a default declared in the letter case the part name uses, with a type of its own: extension defaults are looked up as written
-                    self.pkg.content_types["defaults"].append((ext, "image/x-declared-" + ext.lower()))
+                    # (a browser-displayable type that differs from what the built-in table would give for this extension)
+                    self.pkg.content_types["defaults"].append((ext, {"png": "image/gif", "jpg": "image/png", "gif": "image/jpeg"}[ext.lower()]))
                 elif ext.lower() not in [d[0] for d in self.pkg.content_types["defaults"]] and self.maybe(0.5):
-                    self.pkg.content_types["defaults"].append((ext.lower(), "image/" + ("x-emf" if ext == "emf" else ext.lower())))
+                    self.pkg.content_types["defaults"].append((ext.lower(), "image/" + {"emf": "x-emf", "jpg": "jpeg"}.get(ext.lower(), ext.lower())))
                 rid = self.add_rel(name if self.maybe(0.8) else "/word/" + name,
                                    "http://schemas.openxmlformats.org/officeDocument/2006/relationships/image")
                 blip = X("a:blip", {"r:embed": rid})
